@@ -190,7 +190,7 @@ def _tsoft_consts(fname, rel):
         return None
     ks = {int(m.group(1)) for m in (re.fullmatch(r'cmp Lt (\d+)\*eps', t) for t in found) if m}
     n = sum(1 for t in found if t.startswith('cmp '))
-    if n != len(CONST_NAMES[fname]) or len(ks) > 1 or (n and not ks):
+    if (n == 0) != (len(CONST_NAMES[fname]) == 0) or len(ks) > 1 or (n and not ks):
         return None
     return ks.pop() if ks else 0
 
